@@ -583,7 +583,16 @@ func (s *S) Run(c *scen.Ctx) {
 	// a short client idle time-out: connections are closed between bursts of calls and opened again
 	idle := []time.Duration{0, 0, time.Second}[simrt.Draw(3, "c01.clientidle")]
 	c.Describe("client_idle_timeout", idle.String())
-	comm := world.NewClient(world.ClientOpts{InvokeTimeoutMs: 30000, IdleTimeout: idle})
+	ncallers := 1 + simrt.Draw(8, "c01.callers")
+	per := 1 + simrt.Draw(6, "c01.per")
+	// an admission limit (objqueuemax) that just fits the application's concurrency: with n callers
+	// a proxy never has more than n calls in flight, so no call may be refused as "queue full"
+	var qmax int32
+	if simrt.Draw(2, "c01.objqueuemax") == 1 {
+		qmax = int32(ncallers)
+	}
+	c.Describe("obj_queue_max", qmax)
+	comm := world.NewClient(world.ClientOpts{InvokeTimeoutMs: 30000, IdleTimeout: idle, ObjQueueMax: qmax})
 	s.installFilters(c)
 	conf := &transport.TarsServerConf{Proto: "tcp", Address: addr, MaxInvoke: int32(s.pool), QueueCap: 1000,
 		AcceptTimeout: 500 * time.Millisecond, IdleTimeout: 600 * time.Second}
@@ -604,8 +613,6 @@ func (s *S) Run(c *scen.Ctx) {
 		prxs = append(prxs, p2)
 	}
 	c.Describe("proxy_objects", len(prxs))
-	ncallers := 1 + simrt.Draw(8, "c01.callers")
-	per := 1 + simrt.Draw(6, "c01.per")
 	c.Describe("callers", ncallers)
 	c.Describe("calls_per_caller", per)
 	c.Describe("server_pool", s.pool)
